@@ -29,7 +29,7 @@ from .common import Harness, zbool, instrumented
 PROPERTY = 'C13'
 ALPH = ' >.a'
 BOUNDS = {'quick': 'symbolic_lines: 2 lines x <=6 characters over {space, tab, >, ., a, #}; structured_real: 3 lines from a menu of 12 tokens (two with tabs) x 2 indentations',
-          'thorough': 'symbolic_lines: 3 lines x <=5 characters; structured_real: 4 lines'}
+          'thorough': 'symbolic_lines: 3 lines x <=5 characters; structured_real: 3 lines over all 12 tokens and 4 lines over 6 tokens'}
 OUTSIDE = 'whether the tokenizer\'s balance verdict / ast statement boundaries are right (they are oracles that may answer anything); triple-quote repair (no quote characters in the alphabet); non-ASCII'
 ASSUMPTIONS = ['lines contain no line-break characters', 'symbolic_lines: no tab characters (tab expansion is exercised by structured_real with tab tokens)', 'no quote characters (the HACK_TRIPLE_QUOTE_FIX rewrite of an unprefixed line inside a triple-quoted string is outside)',
                'Directive.extract -> no directives (directive breaks are the chunk obligation of C01/C04)']
@@ -43,8 +43,10 @@ def jobs(tier):
     return [{'ob': 'symbolic_lines', 'harness': 'sym', 'k': 2 if q else 3, 'cap': 6 if q else 5, 'splits': [3, 6, 9, 12, 15],
              'query_timeout_s': 120 if q else 600, 'job_timeout_s': 900 if q else 3000,
              'bounds': '%d lines x <=%d chars over %r' % (2 if q else 3, 6 if q else 5, ALPH)},
-            {'ob': 'structured_real', 'harness': 'real', 'k': 3 if q else 4, 'skip_tokens': [7, 8], 'splits': [2, 4, 6, 8], 'query_timeout_s': 60,
-             'bounds': '%d lines, %d tokens x %d indentations, real tokenizer and ast' % (3 if q else 4, len(TOKENS), len(INDENTS))}]
+            {'ob': 'structured_real', 'harness': 'real', 'k': 3, 'skip_tokens': [7, 8] if q else [], 'splits': [2, 4, 6, 8], 'query_timeout_s': 60,
+             'bounds': '3 lines, %d tokens x %d indentations, real tokenizer and ast' % (len(TOKENS) - (2 if q else 0), len(INDENTS))}] + ([] if q else [
+            {'ob': 'structured_real', 'harness': 'real', 'k': 4, 'skip_tokens': [4, 6, 7, 8, 10, 11], 'splits': [2, 4, 6, 8], 'query_timeout_s': 60, 'job_timeout_s': 3000,
+             'bounds': '4 lines, 6 tokens (blank, statement, open bracket, continuation, want, deeper text) x %d indentations, real tokenizer and ast' % len(INDENTS)}])
 
 
 # ---------------------------------------------------------------- shared oracle
